@@ -7,6 +7,7 @@ package main
 // (src/sessions.rs) consumes what was published.
 
 import (
+	"sort"
 	"encoding/binary"
 	"fmt"
 	"net"
@@ -471,7 +472,48 @@ func c10Scenario(r *sim.Run) {
 		// history: connects, idle, sweeps
 		nops := tp.Choose("nops", 8)
 		for op := 0; op < nops && !r.Failed(); op++ {
-			switch tp.Choose("op", 5) {
+			switch tp.Choose("op", 6) {
+			case 5: // activation with a stale object: the registration expired and was swept in between
+				g := regs[tp.Choose("reg", len(regs))]
+				fam := tp.Choose("fam", 2)
+				if g.ph[fam] == nil || len(g.ph[fam]) != net.IPv4len && len(g.ph[fam]) != net.IPv6len {
+					continue
+				}
+				// a connection handler looks the registrations of the phantom up ...
+				held := w.rm.GetRegistrations(g.ph[fam])
+				if len(held) == 0 {
+					continue
+				}
+				// ... the registrations' lifetime ends and the sweeper removes them ...
+				time.Sleep(6*time.Hour + time.Minute)
+				w.rm.RemoveOldRegistrations()
+				if !consume() || !afterSweep() {
+					return
+				}
+				if n := len(w.rm.GetRegistrations(g.ph[fam])); n != 0 {
+					r.Fail("harness/c10-stale", "%d registrations on %s survived 6 h 1 min and a sweep", n, g.ph[fam])
+					return
+				}
+				// ... and only then the handler activates what it holds
+				upd0 := nUpd
+				var ids []string
+				for id := range held {
+					ids = append(ids, id)
+				}
+				sort.Strings(ids)
+				for _, id := range ids {
+					w.rm.MarkActive(held[id].(*cj.DecoyRegistration))
+				}
+				w.settle()
+				if !consume() {
+					return
+				}
+				r.Logf("stale activation of %d registrations on %s after expiry and sweep", len(ids), g.ph[fam])
+				r.Probe("stale_activation_after_sweep")
+				if nUpd > upd0 {
+					r.Fail("C10/update-for-forgotten-registration", "the station published %d Update message(s) (6 h) for registrations on %s that it had already expired and removed: the detector forwards sessions the station would not accept", nUpd-upd0, g.ph[fam])
+					return
+				}
 			case 0: // connect (activation -> Update)
 				g := regs[tp.Choose("reg", len(regs))]
 				fam := tp.Choose("fam", 2)
